@@ -74,8 +74,6 @@ def unsafeWitnessesDim2 : List (String × RawSig) :=
     ("backtracking = 200: STRATEGY4[200] of 134 rows",               { sigEx with bt := 200 }),
     ("backtracking = -1: STRATEGY4[-1]",                             { sigEx with bt := -1 }),
     ("backtracking = INT_MAX: 2^31 doublings",                       { sigEx with bt := 2 ^ 31 - 1 }),
-    ("hint_aux[0] = -1: NQR_TABLE[-1] (passes `hint < 20`)",         { sigEx with ha0 := -1 }),
-    ("hint_chall[1] = -100000: Z_NQR_TABLE[-100000]",                { sigEx with hc1 := -100000 }),
     ("chall_coeff = 2^256: 5 words into scal[NWORDS_ORDER = 4]",     { sigEx with chall := 2 ^ 256 }),
     ("chall_coeff = -2^300: |x| is written, 5 words into 4",         { sigEx with chall := -(2 ^ 300) }) ]
 
@@ -84,17 +82,16 @@ def unsafeWitnessesHeur : List (String × RawSigH) :=
     ("two_resp_length = 127: ibz_pow(2, -1) = 2^(2^64-1)",           { sigHEx with trl := 127 }),
     ("two_resp_length = -8: STRATEGY4[134]",                         { sigHEx with trl := -8 }),
     ("two_resp_length = -200: negative isogeny length",              { sigHEx with trl := -200 }),
-    ("two_resp_length = INT_MAX: signed overflow in len_chall + two_resp_length", { sigHEx with trl := 2 ^ 31 - 1 }),
-    ("hint_aux[1] = -3: Z_NQR_TABLE[-3]",                            { sigHEx with ha1 := -3 }) ]
+    ("two_resp_length = INT_MAX: signed overflow in len_chall + two_resp_length", { sigHEx with trl := 2 ^ 31 - 1 }) ]
 
 /-- every listed witness makes the unguarded level-1 model perform an out-of-bounds / unbounded access -/
 theorem unsafe_witnesses_dim2 :
     unsafeWitnessesDim2.all (fun w => !allOk (verifyAccessesDim2 L1 noGuardDim2 pkEx w.2)) = true := by decide +kernel
 theorem unsafe_witnesses_heur :
     unsafeWitnessesHeur.all (fun w => !allOk (verifyAccessesHeur L1 noGuardHeur pkEx w.2)) = true := by decide +kernel
-/-- a negative public-key hint is enough, too -/
-theorem unsafe_witness_pk : allOk (verifyAccessesDim2 L1 noGuardDim2 { pkEx with hint0 := -7 } sigEx) = false := by
-  decide +kernel
+/- (On the pinned basis.c negative hints were witnesses too — `NQR_TABLE[-1]` passes `hint < 20`; the table branch of the
+   `*_from_hint` routines has since been guarded by `hint >= 0` in /repo, which the model follows through the extracted
+   `SqiGen.VerifConsts.hintLo…`; the sanitizer probes still cover negative hints on every hint field.) -/
 
 /-- negation of `verify_safe` for a verifier without range validation (the pinned tree) -/
 theorem verify_safe_unguarded_false_dim2 :
